@@ -126,7 +126,16 @@ let run_oracle (args : string list) : string =
           let otok = String.sub tok (i + 1) (String.length tok - i - 1) in
           (match e with ESend (_, m) -> Hashtbl.replace sent (int_of_n m.m_token) m | _ -> ());
           if not (wf_event !st e) then "!" else begin
-            let owner = (match e with ESend (_, m) -> resolve !st m.m_dest | _ -> None) in
+            let owner = (match e with
+                         | ESend (_, m) -> resolve !st m.m_dest
+                         | ERequestName (_, _, n, _, _, _) -> resolve (fst (step cf !st e)) (DName n)      (* primary owner AFTER the step *)
+                         | _ -> None) in
+            let holdok = (match e, owner with
+                          | ESend (_, m), None -> (match m.m_dest with
+                                                   | DName n -> activatable n && not m.m_noauto
+                                                   | DUnique _ -> false)
+                          | _ -> false) in
+            let held = (match e with ERequestName (_, _, n, _, _, _) -> held_for !st.st_held n | _ -> []) in
             let eaves = (match e, owner with ESend (c, m), Some w -> eavesdroppers !st c w m | _ -> []) in
             let res = (match parse_out sent otok with
                        | None -> "9"
@@ -136,15 +145,16 @@ let run_oracle (args : string list) : string =
                            let o = (match owner with
                                     | Some w ->
                                         let seen = ref false in
+                                        let is_release = (match e with ERequestName _ -> true | _ -> false) in
                                         let cls = List.map (fun (r, x) -> match x with
-                                          | OFwd (f, m) when r = w && not !seen -> seen := true; (r, x)
+                                          | OFwd (f, m) when r = w && (not !seen || is_release) -> seen := true; (r, x)
                                           | OFwd (f, m) -> (r, OEav (f, m))
                                           | _ -> (r, x)) o in
                                         List.filter (fun (_, x) -> match x with OFwd _ -> true | _ -> false) cls @
                                         List.filter (fun (_, x) -> match x with OFwd _ -> false | _ -> true) cls
                                     | None -> o) in
                            let full = (match owner with Some w -> is_full !st w | None -> false) in
-                           let c = int_of_n (oracle_step cf !tr owner eaves full e o) in
+                           let c = int_of_n (oracle_step cf !tr owner eaves full holdok held e o) in
                            let detail =
                              if c = 4 then begin
                                let pr l = String.concat "," (List.map (fun (a, s) -> Printf.sprintf "%d.%d" (int_of_n a) (int_of_n s)) l) in
@@ -154,6 +164,14 @@ let run_oracle (args : string list) : string =
                                "[" ^ pr (minus obs exp) ^ ";" ^ pr (minus exp obs) ^ "]"
                              end else "" in
                            let own = (match e with ESend _ -> "@" ^ (match owner with Some w -> string_of_int (int_of_n w) | None -> "x") | _ -> "") in
+                           (* the ledger of open calls (RoutingSpec.age) is defined on send steps; a message that was held for an
+                              activation is passed on by the RequestName step: record each such forward as the send it completes *)
+                           (match e with
+                            | ERequestName _ ->
+                                List.iter (fun (r, x) -> match x with
+                                  | OFwd (f, m) -> tr := (ESend (f, m), [(r, OFwd (f, m))]) :: !tr
+                                  | _ -> ()) o
+                            | _ -> ());
                            tr := (e, o) :: !tr; string_of_int c ^ detail ^ own) in
             st := fst (step cf !st e);
             res
